@@ -64,10 +64,19 @@ def r1(c):
             if call_name(call).split(".")[-1] != "Command" or not call.args:
                 continue
             a0 = call.args[0]
+            extra = G.T
+            if isinstance(a0, ast.Name):
+                # the text chosen beforehand (`word = "commit" if do_commit else "abort"`): the commit text reaches the call only through its own definition
+                from sa.flow import ReachingDefs
+                rd_ = ReachingDefs(fn)
+                for d in rd_.defs(a0):
+                    if d.kind == "assign" and isinstance(d.value, ast.Constant) and isinstance(d.value.value, str) and d.value.value.strip().startswith("commit") and d.stmt is not None:
+                        a0 = d.value
+                        extra = gm.formula(d.stmt)
             if not (isinstance(a0, ast.Constant) and isinstance(a0.value, str) and a0.value.strip().startswith("commit")):
                 continue
             sites += 1
-            f = gm.formula(call)
+            f = G.And(gm.formula(call), extra) if extra != G.T else gm.formula(call)
             c.check("C09.R1", G.implies(f, G.Atom("do_commit")), repo.loc(m, call), f"{name}/Command({a0.value!r})",
                     f"`{a0.value}` is sent under {G.show(f)}, which does not imply do_commit: with --dont-commit the configuration would still be committed", key_text="unguarded-commit")
     c.floor("C09.R1", "commit sites", sites, 8)
@@ -185,8 +194,23 @@ def r4(c):
     lev = [n for n in walk_no_nested(l1) if isinstance(n, ast.Assign) and norm(n.targets[0]).endswith(".level")]
     ok = len(lev) == 1 and norm(lev[0].value).replace(" ", "") == f"len({pathvar})-1"
     c.check("C09.R4", ok, repo.loc(m, l1), "apply_deploy_rulebook/level", "the nesting depth of a command is not len(path) - 1", key_text="level")
-    if app and isinstance(app[0].args[0], ast.Tuple) and len(app[0].args[0].elts) == 3:
-        e = app[0].args[0].elts
+    # the collected record: a 3-tuple, or a record class built positionally / by keyword (field order from the class body)
+    rec = app[0].args[0] if app and app[0].args else None
+    rec_fields = None           # field name -> position, for attribute access on a record
+    if isinstance(rec, ast.Call) and not isinstance(rec.func, ast.Attribute):
+        r_ = repo.resolve_call(m, rec)
+        if r_ and isinstance(r_[2], ast.ClassDef):
+            names = [st.target.id for st in r_[2].body if isinstance(st, ast.AnnAssign) and isinstance(st.target, ast.Name)]
+            if len(names) == 3:
+                rec_fields = {n_: i for i, n_ in enumerate(names)}
+                vals = list(rec.args) + [None] * (3 - len(rec.args))
+                for k in rec.keywords:
+                    if k.arg in rec_fields:
+                        vals[rec_fields[k.arg]] = k.value
+                if all(v_ is not None for v_ in vals):
+                    rec = ast.Tuple(elts=vals, ctx=ast.Load())
+    if app and isinstance(rec, ast.Tuple) and len(rec.elts) == 3:
+        e = rec.elts
         mac = [x for x in calls_in(l1) if call_name(x) == "make_apply_commands"]
         okb = bool(mac) and all(isinstance(x, ast.Name) and any(d.kind == "unpack" and d.value is mac[0] for d in pv.rd.defs(x)) for x in e[1:])
         c.check("C09.R4", okb, repo.loc(m, app[0]), "apply_deploy_rulebook/wrapper-source", "before/after of an entry do not come from make_apply_commands for that path's rule", key_text="wrapper")
@@ -224,8 +248,25 @@ def r4(c):
     c.check("C09.R4", not bad, repo.loc(m, bad[0] if bad else l2), "apply_deploy_rulebook/no-resort", "the collected entries are re-sorted before being emitted", key_text="resort")
     # order inside a group: before, cmds, after
     inner = [st for st in l2.body if isinstance(st, ast.For)]
+
+    def component(e_):
+        """which component (0, 1, 2) of a group's first record an expression denotes: a name unpacked from <group>[0], or <group>[0].<field> of a record class"""
+        v_ = e_
+        if isinstance(v_, ast.Name):
+            for d in pv.rd.defs(v_):
+                if d.kind == "unpack" and d.index and len(d.index) == 1 and isinstance(d.value, ast.Subscript) and norm(d.value.slice) == "0":
+                    return d.index[0]
+            v_ = pv.resolve_alias(v_)
+        if isinstance(v_, ast.Attribute) and rec_fields and v_.attr in rec_fields:
+            base = pv.resolve_alias(v_.value)
+            if isinstance(base, ast.Subscript) and norm(base.slice) == "0":
+                return rec_fields[v_.attr]
+        if isinstance(v_, ast.Subscript) and isinstance(v_.slice, ast.Constant) and isinstance(v_.value, ast.Subscript) and norm(v_.value.slice) == "0":
+            return v_.slice.value
+        return None
     seq = [norm(st.iter) for st in inner]
-    ok = len(inner) == 3 and seq[0] == "before" and seq[2] == "after" and all(any(isinstance(x, ast.Call) and isinstance(x.func, ast.Attribute) and x.func.attr == "add_cmd"
+    comps = [component(st.iter) for st in inner]
+    ok = len(inner) == 3 and comps[0] == 1 and comps[2] == 2 and comps[1] is None and all(any(isinstance(x, ast.Call) and isinstance(x.func, ast.Attribute) and x.func.attr == "add_cmd"
                                                                                    for x in ast.walk(st)) for st in inner)
     ok = ok and not [n for st in inner for n in walk_no_nested(st) if isinstance(n, (ast.Continue, ast.Break))]
     c.check("C09.R4", ok, repo.loc(m, l2), "apply_deploy_rulebook/group-order", f"a group is not emitted as before, commands, after (found loops over {seq})", key_text="group-order")
@@ -352,10 +393,11 @@ def r7(c):
                             b = vv.value if isinstance(vv, ast.Constant) else (a if isinstance(vv, ast.Name) and vv.id == "DEFAULT_TIMEOUT" else None)
     mc = repo.func(DEPLOY, "make_cmd_params")
     cc = None
-    last = [n for n in walk_no_nested(mc) if isinstance(n, ast.Return)][-1]
-    if isinstance(last.value, ast.Dict):
-        for k, val in zip(last.value.keys, last.value.values):
-            if isinstance(k, ast.Constant) and k.value == "timeout":
+    # the fallback: the returned dict whose timeout does not come from the rule (whichever arm of the `if rule` it sits in)
+    rp = mc.args.args[0].arg if mc.args.args else "rule"
+    for ret_ in [n for n in walk_no_nested(mc) if isinstance(n, ast.Return) and isinstance(n.value, ast.Dict)]:
+        for k, val in zip(ret_.value.keys, ret_.value.values):
+            if isinstance(k, ast.Constant) and k.value == "timeout" and not any(isinstance(x, ast.Name) and x.id == rp for x in ast.walk(val)):
                 cc = val.value if isinstance(val, ast.Constant) else (a if "DEFAULT_TIMEOUT" in norm(val) else None)
     c.count("tables", 3)
     ok = a is not None and a == b == cc
